@@ -222,6 +222,11 @@ def handle (prop op : String) (args : List Sexp) (impl : Sexp) : Reply :=
   | "probe", [_, _] =>
     -- a sentence of the language (a tower or a chain) parsed in a child process: it must come back
     ⟨impl == atom "ok", atom "ok", impl == atom "ok", "terminates-without-exhausting-the-stack"⟩
+  | "and.shared", [x, y, z, m] => sharedOp x y z m (· && ·) Expr.mkAnd
+  | "or.shared", [x, y, z, m] => sharedOp x y z m (· || ·) Expr.mkOr
+  | "xor.shared", [x, y, z, m] => sharedOp x y z m (· != ·) Expr.mkXor
+  | "imply.shared", [x, y, z, m] => sharedOp x y z m (fun p q => !p || q) Expr.mkImply
+  | "iff.shared", [x, y, z, m] => sharedOp x y z m (· == ·) Expr.mkIff
   | "and.own", [a, b] => own a b (· && ·) Expr.mkAnd
   | "or.own", [a, b] => own a b (· || ·) Expr.mkOr
   | "xor.own", [a, b] => own a b (· != ·) Expr.mkXor
@@ -409,6 +414,17 @@ def handle (prop op : String) (args : List Sexp) (impl : Sexp) : Reply :=
     ⟨got == cells x .word .word, rendered, impl == rendered && got == cells x .word .word, "display"⟩
   | _, _ => ⟨false, atom "unknown-op", false, "unknown-op"⟩
 where
+  sharedOp (x y z m : Sexp) (op : Bool → Bool → Bool) (fe : Expr String → Expr String → Expr String) : Reply :=
+    -- values are immutable in the model: that the two operands share a node cannot matter
+    let mode := (match m with | atom t => t.toList | _ => [])
+    let e := decExpr x
+    let neg (c : Char) : Bool := mode.getD 2 'N' == c || mode.getD 2 'N' == 'B'
+    let xl := if neg 'L' then Expr.not e else e
+    let xr := if neg 'R' then Expr.not e else e
+    let left := if mode.getD 0 'o' == 'o' then Expr.mkOr xl (decExpr y) else Expr.mkAnd xl (decExpr y)
+    let right := if mode.getD 1 'o' == 'o' then Expr.mkOr xr (decExpr z) else Expr.mkAnd xr (decExpr z)
+    let mdl := encExpr (fe left right)
+    ⟨mdl == impl, mdl, impl != sPanic && connectiveOk op (.E left) (.E right) (decFn impl), "spec"⟩
   own (a b : Sexp) (op : Bool → Bool → Bool) (fe : Expr String → Expr String → Expr String) : Reply :=
     -- the result must not depend on who else holds the operands: all three ownership variants are the
     -- model's (structurally) and satisfy the connective's specification
